@@ -302,3 +302,8 @@ def run(ctx):
     ctx.ob('R35.3', dec.n, 'RuneId.block <- 1st varint, RuneId.tx <- 2nd, balance <- 3rd', okd, '', where(dec, dec.line))
     adds = [s for blk in dec.blocks for s in blk['s'] if s.get('rv', {}).get('k') == 'bin' and s['rv']['op'].startswith('Add')]
     ctx.ob('R35.3', dec.n, 'the offset advances by each returned length (three additions)', len(adds) == 3, f'{len(adds)}', where(dec, dec.line))
+
+
+# sensitivity pack (thorough tier): each seeded edit must be reported by the named rule instance
+MUTANTS = [{'name': 'mints-premine-swapped-in-store', 'file': 'src/index/entry.rs', 'old': '      self.mints,\n      self.number,\n      self.premine,', 'new': '      self.premine,\n      self.number,\n      self.mints,', 'expect': ('R35.1', 'RuneEntry', 'slot 4')},
+           {'name': 'txid-halves-swapped', 'file': 'src/index/entry.rs', 'old': 'let little_end = u128::from_le_bytes(txid_entry[..16].try_into().unwrap());\n    let big_end = u128::from_le_bytes(txid_entry[16..].try_into().unwrap());', 'new': 'let little_end = u128::from_le_bytes(txid_entry[16..].try_into().unwrap());\n    let big_end = u128::from_le_bytes(txid_entry[..16].try_into().unwrap());', 'expect': ('R35.1', 'InscriptionId', 'slot 0 = txid bytes')}]
